@@ -364,14 +364,32 @@ func c10Queries(c c10Case, env *c10Env) *vlib.Failure {
 	}); f != nil {
 		return f
 	}
-	for i := 0; i < len(gotSecs) && i < len(wantSecs); i++ {
-		w, g := wantSecs[i], gotSecs[i]
-		if w.strtab {
-			w.addr = strAddr
-			g.strtab = g.addr == strAddr
+	// every non-empty section once, with its name, flags, address and size. The statement fixes the
+	// order of the memory regions, not of the sections ("each non-empty kernel ELF section"): the
+	// reports are compared as a multiset - in table order first, which is what the shipped code does
+	// and gives the better message.
+	keyOf := func(x c10Sec) c10Sec {
+		if x.strtab {
+			x.addr = strAddr // (a wanted section that is the string table: placed by the harness)
 		}
-		if g != w {
-			return vlib.Failf("VisitElfSections: callback %d of %d got %v; the first ELF tag encodes %v", i, len(wantSecs), g, w)
+		x.strtab = false
+		return x
+	}
+	inOrder := len(gotSecs) == len(wantSecs)
+	for i := 0; inOrder && i < len(wantSecs); i++ {
+		inOrder = keyOf(gotSecs[i]) == keyOf(wantSecs[i])
+	}
+	if !inOrder {
+		left := map[c10Sec]int{}
+		for _, w := range wantSecs {
+			left[keyOf(w)]++
+		}
+		for i, g := range gotSecs {
+			g = keyOf(g)
+			if left[g] == 0 {
+				return vlib.Failf("VisitElfSections: callback %d of %d got %v, which is no non-empty section of the first ELF tag (or was reported before): the tag encodes %v", i, len(wantSecs), gotSecs[i], wantSecs)
+			}
+			left[g]--
 		}
 	}
 	if len(gotSecs) != len(wantSecs) {
